@@ -329,7 +329,7 @@ class SymEval:
                 kws, kchanged = [], False
                 for k in n.keywords:
                     v = k.value
-                    if k.arg is None and isinstance(v, ast.Dict) and all(isinstance(x, ast.Constant) and isinstance(x.value, str) for x in v.keys):
+                    if k.arg is None and isinstance(v, ast.Dict) and v.keys and all(isinstance(x, ast.Constant) and isinstance(x.value, str) for x in v.keys):
                         kws.extend(ast.keyword(arg=x.value, value=y) for x, y in zip(v.keys, v.values))
                         kchanged = True
                     elif k.arg is None and isinstance(v, ast.Call) and isinstance(v.func, ast.Name) and v.func.id == 'dict' and not v.args \
@@ -443,6 +443,11 @@ class SymEval:
             while isinstance(base, (ast.Subscript, ast.Attribute)):
                 base = base.value
             _mark_stale(r, base)
+            # a local bound to a container literal that receives an item under a key this evaluation cannot name is no longer
+            # that literal: from here on it is an opaque value derived from it
+            if isinstance(target, ast.Subscript) and isinstance(target.value, ast.Name) and isinstance(
+                    r.env.get(target.value.id), (ast.Dict, ast.List, ast.Set)):
+                r.env[target.value.id] = _sym('MUTATED', r.env[target.value.id])
 
     def _splice(self, r, bind, callee, fn, loop, depth):
         """run the body of a helper on the path r with its parameters bound to (already evaluated) argument values"""
